@@ -2146,6 +2146,52 @@ fn waiting_group_member_gets_the_backlog_when_the_turn_comes() {
     report(name, "C17", "3 strategies x the window-full member leaving by link failure / UNSUBSCRIBE x 150/201/260 publishes; 3 strategies x 12 trials of two 150-message batches with prompt acknowledgements", cases, fail);
 }
 
+/// C17: a persistent member resuming into a group that was dropped when its last CONNECTED member left.  The group's
+/// position lives only in SharedGroup::cursor; the resumed member re-creates the group at the stale copy kept in its own
+/// saved request, so messages another member already received and acknowledged are forwarded again: KNOWN FINDING.
+// @native props=C17 tier=quick fn=Router::{handle_disconnection,handle_new_connection} (empty groups are dropped while saved sessions still subscribe through them)
+#[test]
+fn resuming_into_an_emptied_group_does_not_repeat_what_others_received() {
+    let name = "rumqttd::Router::handle_new_connection#group_recreated_at_a_stale_position";
+    let mut cases = 0u64;
+    let mut fail: Option<String> = None;
+    for q in 0..2u8 {
+        cases += 1;
+        let desc = format!("a (clean-session off) and b in $share/g/t QoS {}; 4 publishes shared between them, all acknowledged; a's link fails; 2 publishes -> b; b's link fails (group empty); 1 publish; a resumes", q);
+        let mut r = new_router();
+        let p = connect(&mut r, "p", true).unwrap();
+        let a = connect(&mut r, "a", false).unwrap();
+        let b = connect(&mut r, "b", true).unwrap();
+        send(&mut r, &a, vec![subscribe(1, &[("$share/g/t", q)])]);
+        send(&mut r, &b, vec![subscribe(1, &[("$share/g/t", q)])]);
+        let _ = drain(&mut r, &a);
+        let _ = drain(&mut r, &b);
+        let mut others: Vec<String> = vec![];
+        for k in 1..=4 {
+            send(&mut r, &p, vec![publish("t", 0, 0, &format!("{}", k), false)]);
+            let _ = receive_all(&mut r, &a);
+            others.extend(receive_all(&mut r, &b).into_iter().map(|g| g.1));
+        }
+        r.events(a.id, Event::Disconnect);
+        settle(&mut r);
+        for k in 5..=6 {
+            send(&mut r, &p, vec![publish("t", 0, 0, &format!("{}", k), false)]);
+            others.extend(receive_all(&mut r, &b).into_iter().map(|g| g.1));
+        }
+        r.events(b.id, Event::Disconnect);
+        settle(&mut r);
+        send(&mut r, &p, vec![publish("t", 0, 0, "7", false)]);
+        let a2 = connect(&mut r, "a", false).unwrap();
+        let got: Vec<String> = receive_all(&mut r, &a2).into_iter().map(|g| g.1).collect();
+        let twice: Vec<&String> = got.iter().filter(|m| others.contains(m)).collect();
+        if !twice.is_empty() {
+            fail = Some(format!("input=[{}] detail=[after its resume a was sent {:?}; {:?} had been forwarded to b (and acknowledged) before]", desc, got, twice));
+            break;
+        }
+    }
+    report(name, "C17", "QoS 0/1", cases, fail);
+}
+
 /// C17: membership changes never lose or duplicate messages — a member that repeated its group subscription and then
 /// leaves, and a member that joins while the group has an unforwarded backlog
 // @native props=C17 tier=quick fn=SharedGroup::{add_client,remove_client}+Router::{prepare_filter,handle_disconnection,forward_device_data}
